@@ -154,7 +154,7 @@ def scripts_text(scripts):
     return '\n'.join(out) + '\n'
 
 
-def run_impl(exe, scripts, tag, timeout=1200, env=None):
+def run_impl(exe, scripts, tag, timeout=600, env=None):
     os.makedirs(os.path.join(WORK, 'run'), exist_ok=True)
     path = os.path.join(WORK, 'run', '%s_%d.ops' % (tag, os.getpid()))
     open(path, 'w').write(scripts_text(scripts))
